@@ -13,7 +13,7 @@ from common import ROOT, lean_driver
 
 LEVEL = 'proof'
 
-SIMPLE = ['enbc', 'disbc', 'enter', 'exit', 'call_ret', 'call_raise', 'call_exit']       # enumerated exhaustively; the other ways out of a call are drawn at random
+SIMPLE = ['enbc', 'disbc', 'enter', 'exit', 'exit_exc', 'call_ret', 'call_raise', 'call_exit']       # enumerated exhaustively; the other ways out of a call are drawn at random
 CALLS = ['call_ret', 'call_raise', 'call_exit', 'call_kbint', 'call_cancel', 'call_genexit']
 
 
@@ -29,7 +29,7 @@ def expand(hist):
             continue
         if name in ('enbc', 'enter'):
             items.append(('en', t))
-        elif name in ('disbc', 'exit'):
+        elif name in ('disbc', 'exit', 'exit_exc'):
             items.append(('dis', t))
         elif name in ('call_ret', 'call_raise', 'call_exit', 'call_kbint', 'call_cancel', 'call_genexit'):
             items += [('en', t), ('obs', t), ('dis', t)]
@@ -194,7 +194,7 @@ def run(ctx):
     exh = 0
     for n in range(1, L + 1):
         for combo in itertools.product(SIMPLE, repeat=n):
-            if ctx.quick and n == 4 and ctx.rng.below(8):
+            if ctx.quick and n == 4 and ctx.rng.below(12):
                 continue
             for cls in ('line', 'ctx'):
                 cases.append({'cls': cls, 'history': [[0, o] for o in combo], 'exh': True})
@@ -258,7 +258,7 @@ def run(ctx):
             nontrivial.add(json.dumps(c['history']) + c['cls'])
     ctx.coverage.update({
         'evaluations': len(cases), 'distinct_nontrivial': len(nontrivial),
-        'rule': 'all histories of length <= %d over {enbc, disbc, enter, exit, call_ret, call_raise, call_exit (a call left by SystemExit)} (sampled at the last length in quick) for both '
+        'rule': 'all histories of length <= %d over {enbc, disbc, enter, exit, exit_exc (a with-block left by an exception), call_ret, call_raise, call_exit (a call left by SystemExit)} (sampled at the last length in quick) for both '
                 'LineProfiler and ContextualProfile, plus random histories (4-40 ops, 1-3 threads serialised by hand-off) incl. nested decorated calls, '
                 'generators stepped / closed / dropped / exhausted, coroutines run / abandoned; non-trivial = count reaches 2 and a non-primitive op occurs' % L,
         'exhaustive_short_histories': exh, 'random_histories': nrand, 'multi_thread_histories': multi,
